@@ -425,6 +425,20 @@ def search_gamma(ctx, filters, np, bad):
         else:
             if int(np.argmax(v)) != w - 1:
                 bad.append(("gamma_order1_argmax", dict(inp, argmax=int(np.argmax(v)))))
+        if rep % 5 == 0:
+            # the returned array belongs to the caller: scribble on it, then ask the same window again - from the
+            # same object and from a new object with the same (order, peak) - and expect the same samples
+            keep = v.copy()
+            try:
+                v[...] = 7.25
+            except (ValueError, TypeError):
+                pass
+            ctx.count("search:gamma:repeat-after-caller-wrote")
+            for who, wo in (("same object", wobj), ("new object", filters.GammaWindow(order=order, peak=peak))):
+                v2 = wo.get_impulse_response(w)
+                if not (v2.shape == keep.shape and np.array_equal(v2, keep)):
+                    bad.append(("gamma_repeat_after_caller_wrote", dict(inp, asked_again_of=who)))
+                    break
 
 
 def search_circshift(ctx, util, np, bad):
